@@ -21,9 +21,10 @@ def space(tier):
 
 
 def cases(tier):
-    for d in (1, 2, 3):
-        for dims in itertools.product([2, 3], repeat=d):
-            for m in (3, 4, 5, 6):
+    q = tier == 'quick'
+    for d in ((1, 2, 3) if q else (1, 2, 3, 4)):
+        for dims in itertools.product([2, 3] if (q or d == 4) else [2, 3, 4], repeat=d):
+            for m in ((3, 4, 5, 6) if q else (3, 4, 5, 6, 8, 10)):
                 for fam, thr in (('generic', 0), ('generic', 1e-10), ('lowrank2', 1e-10), ('lowrank3', 1e-10)):
                     for rep in ('ttsvd', 'over'):
                         for fl in ('TT', 'FT', 'TF'):
